@@ -193,7 +193,7 @@ func WorkerMain(t *testing.T) {
 			res.Run = run
 			out.Runs++
 			out.Steps += int64(res.Steps)
-			out.SimNs += res.SimNs
+			out.SimNs += float64(res.SimNs)
 			out.Events += int64(res.Events)
 			for k, v := range res.Faults {
 				out.Faults[k] += v
